@@ -44,17 +44,20 @@ type item struct {
 	K     int  `json:"k"`
 	Post  bool `json:"post"`
 	Touch bool `json:"touch,omitempty"` // SET another field: status stays as stored / as seeded
+	Meta  bool `json:"meta,omitempty"`  // per-key Meta
+	Cond  int  `json:"cond,omitempty"`  // per-key Condition: 1 holds, 2 does not hold
 }
 type prog struct {
-	Kind   string `json:"kind"` // PT PE SH WDel WPut WExp
-	Create bool   `json:"create,omitempty"`
-	Seed   int    `json:"seed,omitempty"` // InitialMsgpackOnCreate: 0 none, 1 {status: pending}, 2 {status: claimed}
-	Items  []item `json:"items,omitempty"`
-	Hm     int    `json:"hm,omitempty"`
-	Post   bool   `json:"post,omitempty"`
-	Nx     bool   `json:"nx,omitempty"`
-	Nd     bool   `json:"nd,omitempty"`
-	K      int    `json:"k,omitempty"`
+	Kind    string `json:"kind"` // PT PE SH WDel WPut WExp
+	Create  bool   `json:"create,omitempty"`
+	Seed    int    `json:"seed,omitempty"`     // InitialMsgpackOnCreate: 0 none, 1 {status: pending}, 2 {status: claimed}
+	ReqMeta bool   `json:"req_meta,omitempty"` // request-level Meta
+	Items   []item `json:"items,omitempty"`
+	Hm      int    `json:"hm,omitempty"`
+	Post    bool   `json:"post,omitempty"`
+	Nx      bool   `json:"nx,omitempty"`
+	Nd      bool   `json:"nd,omitempty"`
+	K       int    `json:"k,omitempty"`
 }
 type mstep struct {
 	Kind string `json:"kind"` // Count Select Patched Finish
@@ -116,13 +119,17 @@ func runProg(e *lib.Env, sw string, max int, p prog) []kc {
 	case "PT":
 		items := make([]lib.PatchItem, len(p.Items))
 		for i, it := range p.Items {
-			items[i] = lib.PatchItem{Key: key(it.K), Status: status(it.Post), Touch: it.Touch}
+			items[i] = lib.PatchItem{Key: key(it.K), Status: status(it.Post), Touch: it.Touch, Meta: it.Meta, Cond: it.Cond}
 		}
 		var seedBody []byte
 		if p.Seed > 0 {
 			seedBody = lib.Enc(map[string]interface{}{"status": status(p.Seed == 2)})
 		}
-		r, err := e.PatchStatusSeed(sw, items, cap, p.Create, nil, seedBody)
+		var reqMeta *hydrapb.PatchMeta
+		if p.ReqMeta {
+			reqMeta = &hydrapb.PatchMeta{SetUpdatedAt: true}
+		}
+		r, err := e.PatchStatusSeed(sw, items, cap, p.Create, reqMeta, seedBody)
 		if err != nil {
 			return []kc{{-1, -1}}
 		}
@@ -204,7 +211,7 @@ func cProg(p prog) string {
 			if it.Touch {
 				pf, pt, pc = false, true, p.Seed == 2
 			}
-			its = append(its, fmt.Sprintf("{| ik := %s; ipf := %s; ipt := %s; ipc := %s |}", common.N(uint64(it.K)), common.Bool(pf), common.Bool(pt), common.Bool(pc)))
+			its = append(its, fmt.Sprintf("{| ik := %s; ipf := %s; ipt := %s; ipc := %s; iskip := %s |}", common.N(uint64(it.K)), common.Bool(pf), common.Bool(pt), common.Bool(pc), common.Bool(it.Cond == 2)))
 		}
 		return common.App("PT", common.Bool(p.Create), common.List(its))
 	case "PE":
@@ -275,16 +282,22 @@ func genProg(r *common.Rng, nkeys int, capOnly bool) prog {
 		n := 1 + r.Intn(3)
 		its := []item{}
 		for i := 0; i < n; i++ {
-			its = append(its, item{K: 1 + r.Intn(nkeys+3), Post: r.Chance(80), Touch: r.Chance(20)})
+			it := item{K: 1 + r.Intn(nkeys+3), Post: r.Chance(80), Touch: r.Chance(20), Meta: r.Chance(35)}
+			if r.Chance(25) {
+				it.Cond = 1 + r.Intn(2)
+			}
+			its = append(its, it)
 		}
-		p := prog{Kind: "PT", Create: r.Chance(50), Items: its}
+		p := prog{Kind: "PT", Create: r.Chance(50), Items: its, ReqMeta: r.Chance(30)}
 		if p.Create && r.Chance(60) {
 			p.Seed = 1 + r.Intn(2)
 		}
 		return p
 	case c < 66:
 		nx := r.Chance(70)
-		return prog{Kind: "PE", Hm: 1 + r.Intn(3), Post: r.Chance(85), Nx: nx, Nd: nx && r.Chance(15)}
+		// (never "expired again": one RPC would give all its records the same past expiry, and the
+		// order of equal expiries in the index is not specified - the replay could not predict it)
+		return prog{Kind: "PE", Hm: 1 + r.Intn(3), Post: r.Chance(85), Nx: nx}
 	case c < 78 || capOnly:
 		return prog{Kind: "SH", Hm: 1 + r.Intn(2)}
 	case c < 86:
@@ -394,12 +407,12 @@ func runForced(e *lib.Env, max int, rs []rec, ps []prog, sched []mstep, kind str
 			if at[m.T] == "gateway.capPreCount.counted" {
 				got = ctl.Advance(m.T, stepTimeout, "gateway.patchTreasures.beforeKey")
 				if got == "blocked" {
-			// confirm: on a loaded machine a slow (not blocked) thread must not be taken for blocked
-			if again := ctl.Wait(m.T, 3*stepTimeout); again != "blocked" {
-				got = again
-			}
-		}
-		at[m.T] = got
+					// confirm: on a loaded machine a slow (not blocked) thread must not be taken for blocked
+					if again := ctl.Wait(m.T, 3*stepTimeout); again != "blocked" {
+						got = again
+					}
+				}
+				at[m.T] = got
 			}
 			if at[m.T] == "gateway.patchTreasures.beforeKey" {
 				got = ctl.Advance(m.T, stepTimeout, "gateway.patchTreasures.beforeKey")
@@ -424,6 +437,33 @@ func runForced(e *lib.Env, max int, rs []rec, ps []prog, sched []mstep, kind str
 			break
 		}
 		o.Counts = append(o.Counts, countM(dump(e, sw)))
+	}
+	// let the remaining threads finish ONE AT A TIME (parked ones first, then those waiting for capMu,
+	// then the ones never started): released all at once, a Shift and a save can run into the
+	// engine's own lock-order deadlock, which is not what this check is about
+	settle := func() {
+		for t := range ps {
+			if at[t] == "blocked" && ctl.Wait(t, 300*time.Millisecond) == "done" {
+				at[t] = "done"
+			}
+		}
+	}
+	for t := range ps {
+		if at[t] != "" && at[t] != "blocked" && at[t] != "done" {
+			at[t] = ctl.Advance(t, 3*time.Second)
+			settle()
+		}
+	}
+	for t := range ps {
+		if at[t] == "blocked" {
+			at[t] = ctl.Wait(t, 3*time.Second)
+		}
+	}
+	for t := range ps {
+		if at[t] == "" {
+			at[t] = ctl.Advance(t, 3*time.Second)
+			settle()
+		}
 	}
 	if !ctl.Drain(len(ps), 5*time.Second) {
 		o.Notes = append(o.Notes, "hang: a thread did not finish")
@@ -616,6 +656,19 @@ func main() {
 					p := prog{Kind: "PT", Create: !existing, Items: []item{{K: 1, Post: post}, {K: 60, Post: true}, {K: 61, Post: true}, {K: 62, Post: true}}}
 					o := runSeq(e, max, rs, []prog{p}, "table")
 					add(o)
+					// the same cell with every rarely used per-key option switched on
+					q := p
+					q.ReqMeta = true
+					q.Items = nil
+					for i, it := range p.Items {
+						it.Meta = true
+						it.Cond = 1
+						q.Items = append(q.Items, it)
+						if i == 0 {
+							q.Items = append(q.Items, item{K: it.K, Post: true, Cond: 2})
+						}
+					}
+					add(runSeq(e, max, rs, []prog{q}, "table-options"))
 					run.Hist(fmt.Sprintf("cell:pre=%v,post=%v,budget=%d,existing=%v", pre, post, budget, existing))
 				}
 			}
@@ -677,6 +730,7 @@ func main() {
 	menu := []prog{
 		{Kind: "PT", Items: []item{{K: 1, Post: true}, {K: 3, Post: true}}},
 		{Kind: "PT", Create: true, Items: []item{{K: 9, Post: true}}},
+		{Kind: "PT", ReqMeta: true, Items: []item{{K: 3, Post: true, Meta: true}, {K: 1, Post: true, Cond: 2}, {K: 1, Post: true, Meta: true, Cond: 1}}},
 		{Kind: "PT", Create: true, Seed: 2, Items: []item{{K: 10, Touch: true}, {K: 3, Touch: true}, {K: 10, Post: false}}},
 		{Kind: "PE", Hm: 2, Post: true, Nx: true},
 		{Kind: "PE", Hm: 1, Post: true},
